@@ -16,6 +16,7 @@ import numpy as np
 
 ACTIVE = False
 NPINT = False  # whole-number keyword arguments (k, n_splits, shape, size, random_state, ...) handed over as numpy integers instead of Python ints
+POSITIONAL = False  # keyword arguments handed over by position, in the order of the documented signature (see REQUIRED)
 EXPLICIT = False  # the converse for options with an explicit spelling that must behave like the default on this image (see EQUIVALENT)
 
 # engine="numpy" is documented as the pure-numpy implementation, which "auto" selects when numba is missing (it is, here)
@@ -48,6 +49,25 @@ DOCUMENTED = {
     "load_surfer": dict(dtype="float64"),
     "make_xarray_grid": dict(dims=("northing", "easting"), extra_coords_names=None),
     "variance_to_weights": dict(tol=1e-15, dtype="float64"),
+    "line_coordinates": dict(size=None, spacing=None, adjust="spacing", pixel_register=False),
+    "expanding_window": dict(),
+    "inside": dict(),
+    "pad_region": dict(),
+    "longitude_continuity": dict(),
+}
+
+# The documented signatures are REQUIRED[name] followed by the keys of DOCUMENTED[name], in that order (the order in which the
+# API reference prints them at the pinned commit; written out by hand like the defaults).  maxabs is missing on purpose: its `nan` is
+# keyword-only.  project_grid and train_test_split forward further keyword arguments, which are left as keywords.
+REQUIRED = {
+    "BlockReduce": ["reduction"], "BlockMean": [], "BlockKFold": [], "BlockShuffleSplit": [], "Spline": [], "SplineCV": [], "VectorSpline2D": [],
+    "KNeighbors": [], "Linear": [], "Cubic": [], "synthetic.CheckerBoard": [],
+    "block_split": ["coordinates"], "grid_coordinates": ["region"], "rolling_window": ["coordinates", "size"], "median_distance": ["coordinates"],
+    "project_grid": ["grid", "projection"], "distance_mask": ["data_coordinates", "maxdist"], "convexhull_mask": ["data_coordinates"],
+    "cross_val_score": ["estimator", "coordinates", "data"], "train_test_split": ["coordinates", "data"], "scatter_points": ["region", "size"],
+    "profile_coordinates": ["point1", "point2", "size"], "load_surfer": ["fname"], "make_xarray_grid": ["coordinates", "data", "data_names"],
+    "variance_to_weights": ["variance"], "line_coordinates": ["start", "stop"], "expanding_window": ["coordinates", "center", "sizes"],
+    "inside": ["coordinates", "region"], "pad_region": ["region", "pad"], "longitude_continuity": ["coordinates", "region"],
 }
 
 
@@ -93,13 +113,30 @@ def _npint(v):
     return v
 
 
+def _positional(order, table, args, kwargs, fill):
+    """Moves keyword arguments to positions, following the documented signature, as far as that can be done without skipping a
+    parameter; with `fill`, a skipped optional parameter is given its documented default by position so that later ones can follow."""
+    args, kwargs = list(args), dict(kwargs)
+    names = order[len(args):]
+    last = max([i for i, name in enumerate(names) if name in kwargs], default=-1)
+    for name in names[:last + 1]:
+        if name in kwargs:
+            args.append(kwargs.pop(name))
+        elif fill and name in table:
+            args.append(table[name])
+        else:
+            break
+    return tuple(args), kwargs
+
+
 class _Proxy:
     """Callable stand-in for a public verde function or class (attribute access is forwarded)."""
 
-    def __init__(self, target, table, equivalent=None):
+    def __init__(self, target, table, equivalent=None, order=None):
         self.__dict__["_target"] = target
         self.__dict__["_table"] = table
         self.__dict__["_equivalent"] = equivalent or {}
+        self.__dict__["_order"] = order
 
     def __call__(self, *args, **kwargs):
         if ACTIVE:
@@ -108,6 +145,8 @@ class _Proxy:
             kwargs = {**self._equivalent, **kwargs}
         if NPINT:
             kwargs = {k: _npint(v) for k, v in kwargs.items()}
+        if POSITIONAL and self._order is not None:
+            args, kwargs = _positional(self._order, self._table, args, kwargs, fill=not ACTIVE)
         return self._target(*args, **kwargs)
 
     def __getattr__(self, name):
@@ -126,7 +165,7 @@ def install(verde):
         target = getattr(holder, parts[-1])
         if isinstance(target, _Proxy):
             continue
-        proxy = _Proxy(target, table, EQUIVALENT.get(path))
+        proxy = _Proxy(target, table, EQUIVALENT.get(path), REQUIRED[path] + list(table) if path in REQUIRED else None)
         setattr(holder, parts[-1], proxy)
 
 
@@ -140,6 +179,12 @@ def npint_flag_for(case):
     """Whether this case hands its integer keyword arguments over as numpy integers (a third of the cases)."""
     h = hashlib.sha1(json.dumps(case, sort_keys=True, default=str).encode()).digest()
     return h[3] % 3 == 0
+
+
+def positional_flag_for(case):
+    """Whether this case passes its keyword arguments by position (a quarter of the cases)."""
+    h = hashlib.sha1(json.dumps(case, sort_keys=True, default=str).encode()).digest()
+    return h[4] % 4 == 0
 
 
 def explicit_flag_for(case):
